@@ -68,6 +68,10 @@ where
     fn nested_of<ER: ErrK<'s, Self>>(_id: u32) -> BP<'s, Self, ER> {
         panic!("nested_delimiters is not supported on input kind {}", Self::NAME)
     }
+    /// `Custom` leaf that consumes through `peek()` + `skip()` (needs `ValueInput`)
+    fn custom_skip_of<ER: ErrK<'s, Self>>(g: &G) -> BP<'s, Self, ER> {
+        panic!("{:?} via skip() is not supported on input kind {}", g.op, Self::NAME)
+    }
     /// `a.nested_in(b.to_slice())` (kinds whose slices are inputs of the same kind)
     const NESTED: bool = false;
     fn nested_in_of<ER: ErrK<'s, Self>>(_a: BP<'s, Self, ER>, _b: BP<'s, Self, ER>) -> BP<'s, Self, ER> {
@@ -176,7 +180,39 @@ macro_rules! value_kind {
         fn nested_of<ER: ErrK<'s, Self>>(id: u32) -> BP<'s, Self, ER> {
             nested_delimiters('(', ')', [('[', ']')], move |_| Val::Fb(id)).boxed()
         }
+        fn custom_skip_of<ER: ErrK<'s, Self>>(g: &G) -> BP<'s, Self, ER> {
+            custom_skip_impl::<Self, ER>(g)
+        }
     };
+}
+
+/// `Custom{n, ok}` consuming its tokens with `peek()` + `skip()` instead of `next()`.
+pub fn custom_skip_impl<'s, I: Kind<'s> + ValueInput<'s>, ER: ErrK<'s, I>>(g: &G) -> BP<'s, I, ER>
+where
+    I::Span: Clone + 's,
+{
+    let want = g.p.n as usize;
+    let ok = g.p.ok;
+    let id = g.id;
+    custom(move |inp: &mut chumsky::input::InputRef<'s, '_, I, Ex<ER>>| {
+        let before = inp.cursor();
+        let mut s = String::new();
+        for _ in 0..want {
+            match inp.peek() {
+                Some(c) => {
+                    s.push(c);
+                    inp.skip();
+                }
+                None => return Err(ER::user(inp.span_since(&before), format!("C{}:short", id))),
+            }
+        }
+        if ok {
+            Ok(Val::Str(s))
+        } else {
+            Err(ER::user(inp.span_since(&before), format!("C{}", id)))
+        }
+    })
+    .boxed()
 }
 
 fn simple(s: &SimpleSpan) -> Sp {
@@ -689,6 +725,15 @@ macro_rules! with_iter {
                         let $it = rep.at_least(lo).configure(move |cfg, _ctx: &Val| cfg.at_most(h));
                         $body
                     }
+                    Via::Override => {
+                        let h = hi.expect("Override needs an upper bound");
+                        let $it = rep.at_least(lo + 1).at_most(h.saturating_sub(1)).configure(move |cfg, _ctx: &Val| cfg.at_least(lo).at_most(h));
+                        $body
+                    }
+                    Via::OverrideExactly => {
+                        let $it = rep.at_most(1).configure(move |cfg, _ctx: &Val| cfg.exactly(lo));
+                        $body
+                    }
                     Via::ConfigureNoop => {
                         let rep = rep.at_least(lo);
                         let rep = match hi {
@@ -701,7 +746,10 @@ macro_rules! with_iter {
                 }
             }
             Op::CtxRep if g.p.ok => {
-                let $it = $item.repeated().configure(|cfg, ctx: &Val| cfg.exactly(ctx.flat_string().chars().count()));
+                let rep = $item.repeated();
+                // `lead`: contradictory static bounds that the configuration must replace, not intersect with
+                let rep = if g.p.lead { rep.at_least(3).at_most(1) } else { rep };
+                let $it = rep.configure(|cfg, ctx: &Val| cfg.exactly(ctx.flat_string().chars().count()));
                 $body
             }
             Op::CtxRep => {
@@ -798,11 +846,23 @@ where
         Any | OneOf | NoneOf | Select => I::value_leaf::<ER>(g, env.o.wrap && env.o.obs),
         End => end().to(Val::Unit).boxed(),
         Empty => empty().to(Val::Unit).boxed(),
+        Custom if g.p.lo == 1 && I::VALUE => I::custom_skip_of::<ER>(g),
         Custom => {
             let want = g.p.n as usize;
             let ok = g.p.ok;
+            let twice = g.p.lo == 3;
             custom(move |inp: &mut chumsky::input::InputRef<'s, '_, I, Ex<ER>>| {
                 let before = inp.cursor();
+                if twice {
+                    // consume, rewind by hand, consume again: the manual save/rewind API inside a custom parser
+                    let cp = inp.save();
+                    for _ in 0..want {
+                        if inp.next_maybe().is_none() {
+                            break;
+                        }
+                    }
+                    inp.rewind(cp);
+                }
                 let mut s = String::new();
                 for _ in 0..want {
                     match inp.next_maybe() {
@@ -895,7 +955,7 @@ where
             })
             .boxed(),
         Rep | Sep | CtxRep => {
-            let flav = if g.op == CtxRep { Flav::Vec } else { g.p.flav };
+            let flav = if g.op == CtxRep && !matches!(g.p.flav, Flav::Unit | Flav::Count) { Flav::Vec } else { g.p.flav };
             let item = kid!(0);
             match flav {
                 Flav::Unit => with_iter!(g, env, item, it => it.to(Val::Unit).boxed()),
